@@ -4,6 +4,7 @@ import (
 	"go/ast"
 	"go/token"
 	"go/types"
+	"strings"
 )
 
 func init() { register("C11", rulesC11, nil) }
@@ -519,6 +520,45 @@ func rulesC11(c *Ctx) {
 	})
 
 	c.Rule("R-C11-7", "closing a session always releases what waits on it: the transports' done channels are closed exactly once and on every path of Close (shared with R-C05-13)", func() { closeOnceRule(c) })
+
+	c.Rule("R-C11-8", "a client that closes a session tells the server (DELETE), which is what closes and forgets the server-side session and releases its stored events; the DELETE is skipped only when the server already said the session is gone (ErrSessionMissing)", func() {
+		cl := c.Fn(pM, "streamableClientConn", "Close")
+		missing := c.Obj(pM, "ErrSessionMissing")
+		n := 0
+		for _, f := range append([]*Func{cl}, cl.AllLits()...) {
+			g := f.Graph()
+			for _, call := range f.AllCalls(f.Body, false) {
+				fn := f.Callee(call)
+				if fn == nil || fn.Name() != "NewRequestWithContext" || len(call.Args) < 2 || exprStr(call.Args[1]) != "http.MethodDelete" {
+					continue
+				}
+				n++
+				extra := ""
+				for _, a := range g.GuardsAt(g.VertexOf(call)) {
+					if isCompound(a.E) {
+						continue
+					}
+					// allowed: !errors.Is(failure, ErrSessionMissing); a session id exists; plain nil tests of errors
+					if ce, ok := a.E.(*ast.CallExpr); ok && f.Callee(ce) != nil && f.Callee(ce).FullName() == "errors.Is" && len(ce.Args) == 2 && f.ObjOf(ce.Args[1]) == missing && !a.Val {
+						continue
+					}
+					if x, y, op, isCmp := binaryCmp(a.E); isCmp && (op == token.NEQ || op == token.EQL) {
+						if s, isS := f.ConstString(y); isS && s == "" && (strings.HasSuffix(f.FieldPath(x), ".sessionID") || strings.HasSuffix(f.FieldPath(x), ".SessionID()")) {
+							continue // no session was ever established
+						}
+					}
+					if _, _, isNil := NilTest(a.E); isNil {
+						if x, _, _ := NilTest(a.E); !strings.Contains(exprStr(x), "failure") {
+							continue
+						}
+					}
+					extra = a.String()
+				}
+				c.Check(extra == "", "client-Close:DELETE-not-narrowed", f, call, "the DELETE is sent unless the failure is ErrSessionMissing (unexpected condition: %s)", extra)
+			}
+		}
+		c.Pin("DELETE requests built in streamableClientConn.Close", n, 1)
+	})
 
 	c.Rule("R-C11-6", "stateless endpoints neither read nor issue session ids (outside the compatibility switch) and answer non-POST methods with 405 + Allow", func() {
 		f := c.Fn(pM, "StreamableHTTPHandler", "serveStateless")
